@@ -462,7 +462,6 @@ QUIRK_TEXT = {
     'min_is_max': 'min_over_time uses the comparison of max_over_time (planner_unwrap_agg.go:39)',
     'first_nonzero': 'first_over_time takes the first NON-ZERO value in arrival order (planner_unwrap_agg.go:44), not the value with the smallest timestamp',
     'last_arrival': 'last_over_time takes the last value in arrival order (planner_unwrap_agg.go:49); entries arrive newest first unless direction=forward',
-    'vec_nogroup': 'a vector aggregation without by/without gets no grouping processor (planner.go planByWithout): series are not merged',
 }
 
 
